@@ -25,10 +25,23 @@ class EngineModel:
         from .inline import flat_methods
         fm, self.absorbed = flat_methods(self.cls)
         self.methods = dict(fm)
+        # the decorators of the engine's methods (the lock, the version gate) may live at module level instead of in the class body:
+        # a module-level function that decorates a method of the class is part of the engine just the same
+        modfns = {f.name: f for f in self.tree.body if isinstance(f, ast.FunctionDef)}
+        self.module_decorators = {}
+        for f in self.cls.body:
+            if isinstance(f, ast.FunctionDef):
+                for d in f.decorator_list:
+                    dn = d.func if isinstance(d, ast.Call) else d
+                    if isinstance(dn, ast.Name) and dn.id in modfns and dn.id not in self.methods:
+                        self.module_decorators[dn.id] = modfns[dn.id]
+        self.methods.update(self.module_decorators)
         self.dispatch = self._dispatch()
         self.handlers = sorted(set(self.dispatch.values()))
 
     def method(self, name):
+        if name in self.module_decorators:
+            return self.module_decorators[name]
         return get_method(self.cls, name)
 
     def site(self, node, fn=None):
